@@ -1,1 +1,49 @@
-// hook body for teddy_generic (included into /repo under cfg(aho_corasick_verif))
+// Hook body included as `crate::packed::teddy::generic::verif`.
+use super::*;
+use alloc::{vec::Vec, sync::Arc};
+
+/// Dump of a slim 128-bit Teddy: buckets (pattern ids) and (lo, hi) masks.
+#[cfg(target_arch = "x86_64")]
+pub(crate) fn slim128_to_raw<const BYTES: usize>(
+    s: &Slim<core::arch::x86_64::__m128i, BYTES>,
+) -> (Vec<Vec<u32>>, Vec<([u8; 16], [u8; 16])>) {
+    let buckets = s
+        .teddy
+        .buckets
+        .iter()
+        .map(|b| b.iter().map(|p| p.as_u32()).collect())
+        .collect();
+    let masks = s
+        .masks
+        .iter()
+        .map(|m| unsafe {
+            (core::mem::transmute(m.lo), core::mem::transmute(m.hi))
+        })
+        .collect();
+    (buckets, masks)
+}
+
+unsafe fn alias(b: &'static [u32]) -> Vec<PatternID> {
+    Vec::from_raw_parts(b.as_ptr() as *mut PatternID, b.len(), b.len())
+}
+
+/// Rebuild a slim 128-bit Teddy around borrowed statics, loop free.
+#[cfg(target_arch = "x86_64")]
+pub(crate) unsafe fn slim128_from_parts<const BYTES: usize>(
+    patterns: Arc<Patterns>,
+    b: &'static [&'static [u32]; 8],
+    masks: &'static [([u8; 16], [u8; 16])],
+) -> Slim<core::arch::x86_64::__m128i, BYTES> {
+    use core::arch::x86_64::__m128i;
+    let buckets: [Vec<PatternID>; 8] = [
+        alias(b[0]), alias(b[1]), alias(b[2]), alias(b[3]),
+        alias(b[4]), alias(b[5]), alias(b[6]), alias(b[7]),
+    ];
+    let teddy: Teddy<8> = Teddy { patterns, buckets };
+    let mk = |i: usize| Mask::<__m128i> {
+        lo: core::mem::transmute::<[u8; 16], __m128i>(masks[i].0),
+        hi: core::mem::transmute::<[u8; 16], __m128i>(masks[i].1),
+    };
+    let masks: [Mask<__m128i>; BYTES] = core::array::from_fn(mk);
+    Slim { teddy, masks }
+}
